@@ -18,6 +18,7 @@ import (
 // written without any of the engine's code: what "out" must emit on each block.
 func c01Reference(f *c07Fake, n uint64) [][]byte {
 	var k [2][]byte
+	var had [2]bool
 	out := make([][]byte, n)
 	for b := uint64(0); b < n; b++ {
 		var m1, m2 []byte
@@ -36,6 +37,22 @@ func c01Reference(f *c07Fake, n uint64) [][]byte {
 		}
 		// m1 runs on every block (its input is the block itself); a module that ran and emitted
 		// nothing is an empty input, not a skipped one: out runs on every block too
+		if f.graph == 4 {
+			// out reads the store's deltas of the block: one create/update when m1 emitted, none otherwise
+			o := []byte{0}
+			if m1 != nil {
+				op := byte(pbsubstreams.StoreDelta_UPDATE)
+				if !had[b%2] {
+					op = byte(pbsubstreams.StoreDelta_CREATE)
+				}
+				had[b%2] = true
+				o = append([]byte{1, op, 2, byte(len(m1))}, m1...)
+			}
+			o = append(o, byte(len(m1)), byte(len(m2)))
+			o = append(o, m1...)
+			out[b] = append(o, m2...)
+			continue
+		}
 		o := append([]byte{byte(len(k[0])), byte(len(k[1])), byte(len(m1)), byte(len(m2))}, k[0]...)
 		o = append(o, k[1]...)
 		o = append(o, m1...)
